@@ -193,5 +193,5 @@ def subchecks(tier):
     q = tier == "quick"
     return [Sub("transformations", "hyp", check, strategy=strategy, examples=260 if q else 6000, shrink_budget=40,
                 sample_filter=gen_maps.short_case, required_classes=("second-pass", "ghost-ids", "reference-subset")),
-            Sub("many-queries", "hyp", check_many, strategy=scale.many_queries_case, examples=2 if q else 48, shrink_budget=0, shards=2 if q else 16,
+            Sub("many-queries", "hyp", check_many, strategy=scale.many_queries_case, examples=2 if q else 48, shrink_budget=0, skip_first=True, shards=2 if q else 16,
                 sample_filter=scale.short, describe="257-385 query molecules in one run vs runs restricted to a few of them")]
